@@ -1630,6 +1630,15 @@ def adev_family():
         if not close(d.tangent, 1.0, tol=1e-5):
             fail("MvNormalREPARAM: the pathwise derivative of E[sum x] wrt mu[0] is not 1 (tangents read with tree_primal)", tangent=d.tangent)
         return
+    # pathwise derivative through the SCALE of a reparameterised normal: d/ds E[x^2], x ~ N(0, s), is 2s
+
+    @expectation
+    def second_moment(s):
+        return normal_reparam(0.0, s) ** 2
+    for s_ in (0.5, 1.5):
+        tg = jax.vmap(lambda k_: second_moment.jvp_estimate(k_, Dual(s_, 1.0)).tangent)(jrand.split(jrand.key(5), 4000))
+        if abs(float(jnp.mean(tg)) - 2 * s_) > 0.25 * max(1.0, 2 * s_):
+            fail("ADEV normal_reparam: the pathwise derivative with respect to the scale is off", s=s_, mean_tangent=jnp.mean(tg), want=2 * s_)
     keys = jrand.split(jrand.key(2), 3000)
     for name, prog, arg, want in (("two flip_reinforce sites", two_reinforce_flips, 0.5, 0.5), ("two normal_reinforce sites", two_reinforce_normals, 0.3, 2.0),
                                   ("two normal_reparam sites", two_reparam_normals, 0.3, 2.0), ("normal_reparam then normal_reinforce", reparam_then_reinforce, 0.3, 2.0),
